@@ -47,16 +47,25 @@ theorem arangeNumF_exact (a s e : Int) (n : Nat) (hs : s ≠ 0) (he : -1074 ≤ 
   have : a + (n : Int) * s - a = (n : Int) * s := by omega
   rw [this, roundDy_of_fits _ _ hns he]
   obtain ⟨j, hj⟩ := div_exact (n : Int) s e hs hn hsb
+  dsimp only
   rw [hj]
   simp only [Option.map_some, ceil_scaled, Int.toNat_natCast]
+  -- the underflow rule does not fire: the quotient `n * 2^j` is zero only if `n = 0`, and then `stop = start`
+  by_cases hn0 : n = 0
+  · subst hn0; simp
+  · have hp : (0 : Int) < 2 ^ j := Int.pow_pos (by decide)
+    have : ((n : Int) * 2 ^ j) ≠ 0 := Int.mul_ne_zero (by omega) (Int.ne_of_gt hp)
+    simp [this]
 
 theorem arangeElem_exact (a s e : Int) (n i : Nat) (he : -1074 ≤ e) (hi : i ≤ n + 1) (hi53 : i < 2 ^ 53)
     (hb : a.natAbs + (n + 1) * s.natAbs < 2 ^ 53) :
     arangeElem f64Arith ⟨a, e⟩ ⟨a + s, e⟩ i = ⟨a + (i : Int) * s, e⟩ := by
   unfold arangeElem
+  by_cases h0 : i = 0
+  · subst h0; simp
   by_cases h1 : i = 1
   · subst h1; simp
-  · simp only [h1, if_false, f64Arith]
+  · simp only [h0, h1, if_false, f64Arith]
     have hsb : s.natAbs < 2 ^ 53 := by
       have : s.natAbs ≤ (n + 1) * s.natAbs := Nat.le_mul_of_pos_left _ (Nat.succ_pos n)
       omega
